@@ -90,15 +90,19 @@ CHECKS = {
     ),
     "C11": dict(
         category="proof",
-        text=("Lean theorems (Edn.Properties.C11) prove the position half for every input and offset: the line-feed index is complete and "
-              "strictly ascending, binary_search_line finds the last line feed before an offset, and line/column equal 1 + number of line "
-              "feeds before the offset and 1 + distance from the byte after the last of them. The value-range half (ranges inside the input, "
-              "enclosing ordered/disjoint child ranges, re-reading a range yields the same sub-tree; error ranges 0<=start<=end<=length) is "
-              "decided on the real library by an oracle over generated, extension-syntax, corrupted and multi-line documents, and tied to the "
-              "model by the correspondence run (which compares every range and error position)."),
+        text=("Lean theorems (Edn.Properties.C11) for every input, configuration and option set without handler registry: every range "
+              "in the returned tree is non-empty and inside the input, a parent's range encloses its children's, siblings (map keys and "
+              "values in reading order) do not overlap and appear in source order, metadata lies inside its target, a value spans exactly "
+              "the bytes consumed for it (six-fold induction over the reader); values the reader synthesises (rewritten namespaced-map keys, "
+              "merged metadata maps, implicit `true`) carry the range (0,0) and are exempt; every error range satisfies 0<=start<=end<=length; "
+              "the line-feed index is complete and strictly ascending, binary_search_line finds the last line feed before an offset, and "
+              "line/column equal 1 + number of line feeds before the offset and 1 + distance from the byte after the last of them. "
+              "Tied to the code by the correspondence run (every range and error position compared) over generated, extension-syntax, "
+              "corrupted and multi-line documents; the oracle re-checks enclosure/order/disjointness on the real tree and re-reads every "
+              "sub-value's byte range on the real library (the re-read statement is not yet a theorem)."),
         design_ref="DESIGN.md section 6, C11",
-        note=NOTE_COMMON + " Only the line/column arithmetic is a theorem so far; the value-range statements are translation-validated against the model and oracle-checked, not yet proved.",
-        technique="Lean 4 proof (binary-search invariant, sorted-index lemmas) + correspondence check + range/re-read oracle",
+        note=NOTE_COMMON + " Handler-returned values are outside the theorem (a handler may return anything); their ranges are overwritten by the reader and checked by the oracle.",
+        technique="Lean 4 proof (six-fold induction on reader fuel with accumulator invariants; binary-search invariant) + correspondence check + range/re-read oracle",
     ),
     "C14": dict(
         category="proof",
@@ -140,6 +144,61 @@ CHECKS = {
         design_ref="DESIGN.md section 6, C02",
         note=NOTE_COMMON + " Partial: real stack frames and real time are only measured; the cost model (step counts) is not a theorem.",
         technique="Lean 4 proof (progress, fuel monotonicity/sufficiency by induction on fuel; Stein gcd termination) + resource-limited runs",
+    ),
+    "C03": dict(
+        category="proof",
+        text=("Lean theorem (Edn.Properties.C03): an inductive relation Renders (Edn.Spec.Renders) says which byte strings spell which values "
+              "of the data model - nil, booleans, decimal integers (int64 range -> int, beyond or N suffix -> big integer keeping sign and digits), "
+              "strings with every escape of the build, characters (named, \\uXXXX, printable), keywords, symbols, lists, vectors, sets and maps with "
+              "pairwise distinct elements/keys, tagged elements, any mix of the 11 whitespace bytes, commas, comments and discarded forms between "
+              "forms - and for every derivation within the nesting limit edn_read accepts the bytes, consumes exactly them and returns a tree "
+              "with exactly that content (kinds, payloads, order, counts, tag bytes), at every depth and in discard mode too. Floats are covered by "
+              "C05's correctly-rounded theorem. Tied to the code by the correspondence run; a grammar sampler derived from docs/edn.ebnf and the "
+              "value generator feed accepted documents whose expected tree is known; the 11 listed grammar-vs-reader differences are known findings."),
+        design_ref="DESIGN.md section 6, C03",
+        note=NOTE_COMMON + " Renders is my reading of the EDN specification; float, ratio and extension spellings are outside it (floats: C05; extensions: correspondence only).",
+        technique="Lean 4 proof (mutual structural induction over rendering derivations; token lemmas per kind) + correspondence check + grammar sampler / expected-tree oracle",
+    ),
+    "C10": dict(
+        category="proof",
+        text=("Lean theorems (Edn.Properties.C10): for every input edn_read returns exactly one of value / caller's end-of-input value / error, "
+              "and an error's code is never OK (six-fold induction); string, character, identifier/symbolic and number tokens fail with their own class; "
+              "one-step characterisations give the class and range of each structural defect: stray closer (UNMATCHED_DELIMITER), wrong closer, "
+              "input ending inside a sequence or map (UNTERMINATED_COLLECTION from the opener to the end), odd map (INVALID_SYNTAX), discard or tag "
+              "without operand (INVALID_DISCARD / INVALID_SYNTAX / UNEXPECTED_EOF). Tied to the code by all strings of length <=4 (5 thorough) over a "
+              "24-symbol structural alphabet in two option modes (value-xor-error checked on the real result structure) and by corruptions of "
+              "generated documents whose class is predicted from the dump (truncation inside collection/string, wrong/stray/missing closer, odd map, "
+              "orphan discard/tag/metadata marker, bad token)."),
+        design_ref="DESIGN.md section 6, C10",
+        note=NOTE_COMMON + " Error message texts are compared by the C17 check, not modelled.",
+        technique="Lean 4 proof (induction on reader fuel; one-step unfoldings) + correspondence check + predicted-error-class oracle",
+    ),
+    "C13": dict(
+        category="proof",
+        text=("Lean theorems (Edn.Properties.C13): any run of whitespace bytes, commas and closed comments in front of a form leaves the result of "
+              "edn_read_value unchanged (value, end-relative ranges, remaining input, handler calls); a discarded form in front of a form is skipped "
+              "and reading continues with the same call log; in discard mode no reader function ever appends to the call log (no handler runs); "
+              "trivia-only input reads as end of input (error at the end, or exactly the caller's end-of-input value). Tied to the code by pairs of "
+              "plain and trivia-decorated renderings of generated values (every trivia kind at every gap, nested discards, tags with handlers), "
+              "discarded tagged forms with failing handlers, and trivia-only documents, through library and model."),
+        design_ref="DESIGN.md section 6, C13",
+        note=NOTE_COMMON,
+        technique="Lean 4 proof (scanner lemmas, induction on reader fuel) + correspondence check + metamorphic trivia oracle",
+    ),
+    "C18": dict(
+        category="proof",
+        text=("Lean theorems (Edn.Properties.C18): if the core configuration accepts a document that contains none of the byte patterns an "
+              "extension re-interprets (`^`, the text-block opener, backslash+FF/BS, an extension string escape inside a discarded form) and every "
+              "string of the result decodes with the core escapes, then every flag combination returns the same tree - kinds, payloads, children, "
+              "ranges, remaining input, call log - up to cache cells (simulation by induction on reader fuel, for every form at every depth); "
+              "numbers the core accepts are read identically everywhere; strings decodable by the core decode to the same bytes everywhere. All "
+              "other extension spellings are rejected by the core, so they fall under `the core accepts`. Tied to the code by reading core-generator "
+              "documents, corruptions, byte contexts and all strings of length <=3 (4 thorough) over a 28-symbol alphabet containing every reserved "
+              "spelling in the four builds and the model in four configurations; dumps must agree whenever the theorem's hypotheses hold and any "
+              "difference must be attributable to a reserved spelling."),
+        design_ref="DESIGN.md section 6, C18",
+        note=NOTE_COMMON + " The attribution of differences on rejected documents to reserved spellings is an oracle check (over-approximating detector), not a theorem.",
+        technique="Lean 4 proof (simulation between configurations by induction on fuel) + correspondence check in 4 builds + cross-configuration oracle",
     ),
     "C05": dict(
         category="proof",
